@@ -121,6 +121,7 @@ func recvCell(ip *Interp, args []Value) *Cell {
 }
 
 type ctxObj struct {
+	key, val  Value
 	parent    *ctxObj
 	children  []*ctxObj
 	done      *ChanObj
@@ -179,6 +180,11 @@ func (ip *Interp) opaqueInvoke(recv Iface, method string, args []Value, cc *ssa.
 			}
 			return Iface{}
 		case "Value":
+			for c := o; c != nil; c = c.parent {
+				if c.key != nil && ip.branch(ip.valuesEqual(c.key, args[0])) {
+					return c.val
+				}
+			}
 			return Iface{}
 		case "Deadline":
 			return Tuple{ip.zero(cc.Signature().Results().At(0).Type()), ip.tb.BoolConst(false)}
@@ -594,6 +600,17 @@ func init() {
 		ip.store(args[0].(Ptr).c, args[1])
 		return nil
 	}
+	// ----- sync.Pool: no pooling (Get always allocates through New) -----
+	I["(*sync.Pool).Get"] = func(ip *Interp, fn *ssa.Function, args []Value) Value {
+		c := recvCell(ip, args)
+		// struct { noCopy; local; localSize; victim; victimSize; New func() any }: New is the last field
+		nf := ip.load(c.elems[len(c.elems)-1])
+		if cl, ok := nf.(*Closure); ok && cl != nil {
+			return ip.callValue(cl, nil, nil)
+		}
+		return Iface{}
+	}
+	I["(*sync.Pool).Put"] = stubZero
 	// ----- sync.Map -----
 	smap := func(ip *Interp, args []Value) *MapObj {
 		c := recvCell(ip, args)
@@ -704,6 +721,17 @@ func init() {
 			return nil
 		}}
 		return Tuple{mkCtxValue(c), cancel}
+	}
+	I["context.WithValue"] = func(ip *Interp, fn *ssa.Function, args []Value) Value {
+		piv := args[0].(Iface)
+		parent, ok := piv.v.(*ctxObj)
+		if !ok {
+			ip.unsupported("context.WithValue on non-engine context")
+		}
+		c := ip.newCtx(parent)
+		c.done = parent.done // a value context shares its parent's cancellation
+		c.key, c.val = args[1], args[2]
+		return mkCtxValue(c)
 	}
 	I["context.WithCancel"] = withCancel
 	I["context.WithTimeout"] = withCancel
